@@ -158,7 +158,14 @@ class LGen(solvecheck.Gen):
         for li, l in enumerate(ls):
             if l["randsz"]:
                 # mostly first (the size is then solved before the elements), sometimes later in the block
-                stmts.insert(0 if r.random() < 0.75 else r.randint(0, len(stmts)), self.size_constraint(li))
+                # the size bounded by, or tied to, a small random field (with only a loose literal bound next to it): the list
+                # has to be grown to what that field allows
+                ru = [i for i, f in enumerate(fs) if f["rand"] and not f["s"] and not f.get("enums") and 2 <= f["w"] <= 3]
+                if ru and r.random() < 0.35:
+                    stmts.insert(0, {"k": "expr", "e": B("le", {"k": "size", "l": li}, I(r.randint(6, 8)))})
+                    stmts.insert(1, {"k": "expr", "e": B(r.choice(["le", "le", "eq", "lt"]), {"k": "size", "l": li}, F(r.choice(ru)))})
+                else:
+                    stmts.insert(0 if r.random() < 0.75 else r.randint(0, len(stmts)), self.size_constraint(li))
         # an ordering directive between a scalar and a whole list (the list stands for its size and its elements)
         rf = [i for i, f in enumerate(fs) if f["rand"] and not f.get("enums")]
         fl = [li for li, l in enumerate(ls) if l["rand"] and not l["randsz"]]
